@@ -149,7 +149,7 @@ def run(tier):
     from . import mc
     models = [("ResolveDesign", dict(MaxNodes=2, Orders="Ord012", TemplateNames="TN6"), "Spec"),
               ("SamplerMC", dict(CfgIds="IdsAll", TargetIdx=1, MaxSteps=3), "Spec"),
-              ("ResolverAPI", dict(Inputs="{1, 4}", Levels="Lv", MaxObjs=2, MaxEvents=4, Ctors="CtorsAll"), "Spec"),
+              ("ResolverAPI", dict(Inputs="{1, 4}", Levels="Lv", MaxObjs=2, MaxEvents=4, Ctors="CtorsAll", OtherKinds="OthersQ"), "Spec"),
               ("Writer", dict(MaxN=3, Orders="Ord012"), "Spec"),
               ("GraphOps", dict(Templates="TplQ", MaxOps=4, MaxNodes=6, MaxMerges=3), "Spec"),
               ("CGGraphMC", dict(MaxLen=5, NodeToks="Nodes2", SymToks="SymQuick", RingToks="Rings1", MultCounts="Mult2",
